@@ -253,6 +253,7 @@ type Env struct {
 	Helper *Func // a function of t's package (any annotation mix)
 	Reset  *Func // a method of t (any annotation mix), pointer receiver
 	Val    *Func // a method with value receiver
+	Pass   *Func // func PassT(x *T) *T of t's package (any annotation mix): used to nest uses inside one expression
 	Getter *Func // non-nil: values are obtained through this package-local helper (the file need not import the type's package)
 }
 
@@ -437,6 +438,22 @@ func useTemplates() []Tmpl {
 		x, y := b.v(), b.v()
 		c, u := callNew(t, env)
 		return []*Node{b.stmt(x+" := "+c, u), b.stmt(y+" := "+x+"."+env.Reset.Name, &Use{Kind: UMethodRef, Fn: env.Reset}), b.stmt(y + "()")}
+	}})
+	// several annotated items nested in ONE expression (a suppressed outer use must not hide the inner ones)
+	ts = append(ts, Tmpl{Name: "nested-call-chain", Cat: TONL, Kind: "struct", NoImp: true, Make: func(b *B, t *Type, env *Env) []*Node {
+		c, u := callNew(t, env)
+		pf := q(t.Pkg) + env.Pass.Name
+		return []*Node{b.stmt(pf+"("+pf+"("+c+"))."+env.Reset.Name+"()", u, &Use{Kind: UFuncRef, Fn: env.Pass, Call: true}, &Use{Kind: UMethodRef, Fn: env.Reset, Call: true})}
+	}})
+	ts = append(ts, Tmpl{Name: "nested-literal-argument", Cat: TONL, Kind: "struct", Make: func(b *B, t *Type, env *Env) []*Node {
+		pf := q(t.Pkg) + env.Pass.Name
+		return []*Node{b.tstmt("_ = "+pf+"(&%T{})."+env.Val.Name, &Use{Kind: UFuncRef, Fn: env.Pass, Call: true}, useT(ULit, t, ""), refT(t, SubLit), &Use{Kind: UMethodRef, Fn: env.Val})}
+	}})
+	ts = append(ts, Tmpl{Name: "nested-helper-in-argument", Cat: TONL, Kind: "struct", NoImp: true, Make: func(b *B, t *Type, env *Env) []*Node {
+		c, u := callNew(t, env)
+		pf := q(t.Pkg) + env.Pass.Name
+		x := b.v()
+		return []*Node{b.stmt(x+" := func(p any, _ ...any) {}"), b.stmt(x+"("+pf+"("+c+"), "+q(t.Pkg)+env.Helper.Name+", "+c+"."+env.Reset.Name+")", u, &Use{Kind: UFuncRef, Fn: env.Pass, Call: true}, &Use{Kind: UFuncRef, Fn: env.Helper}, &Use{Kind: UMethodRef, Fn: env.Reset})}
 	}})
 	// type mentions in declarations
 	ts = append(ts, Tmpl{Name: "decl-param", Cat: TONL, Decl: true, Make: func(b *B, t *Type, env *Env) []*Node {
